@@ -1279,7 +1279,14 @@ fn diff_edge_attachments(
         let edge_id = EdgeId(*id);
         let before_val = before.edge_attachment(&edge_id);
         let after_val = after.edge_attachment(&edge_id);
-        if before_val == after_val {
+        // An edge that keeps its id but changes `from` is emitted as DeleteEdge + UpsertEdge, and
+        // DeleteEdge clears the β attachment: an unchanged attachment must be re-emitted.
+        let migrated = after_val.is_some()
+            && before
+                .edge_index
+                .get(&edge_id)
+                .is_some_and(|from| after_edges.get(id).is_some_and(|e| e.from != *from));
+        if before_val == after_val && !migrated {
             continue;
         }
 
